@@ -17,7 +17,8 @@ M = [
  ("C05", "bit-clear-skips-validation", "src/registers/core.c", "    case REG_TYPE_INVALID:\n        goto invalid;\n    }\n    rv = register_set(t, idx, reg);\n    return rv;\n\ninvalid:\n    rv.code = REG_ACCESS_INVALID;\n    rv.address = idx;\n    return rv;\n}\n\nRegisterAccess\nregister_default", "    case REG_TYPE_INVALID:\n        goto invalid;\n    }\n    rv = register_set_unsafe(t, idx, reg);\n    return rv;\n\ninvalid:\n    rv.code = REG_ACCESS_INVALID;\n    rv.address = idx;\n    return rv;\n}\n\nRegisterAccess\nregister_default"),
  ("C03", "foreach-stops-before-last", "src/registers/core.c", "    while (start <= last && t->entry[start].address <= end) {", "    while (start <= last && t->entry[start].address < end) {"),
  ("C03", "read-unreadable-area-not-zeroed-at-area-start", "src/registers/core.c", "        if (register_area_is_readable(a)) {\n            rv = a->read(a, buf, offset, readn);", "        if (register_area_is_readable(a) || offset == 0u) {\n            rv = a->read(a, buf, offset, readn);"),
- ("C04", "adjacent-areas-rejected-when-size-one", "src/registers/core.c", "        if (current < (previous + t->area[i-1].size)) {", "        if (current < (previous + t->area[i-1].size) || (current == previous)) {"),
+ ("C04", "empty-area-records-one-register", "src/registers/core.c", "            a->entry.first = a->entry.last = a->entry.count = 0;", "            a->entry.first = a->entry.last = 0;\n            a->entry.count = (entry < t->entries) ? 1 : 0;"),
+ ("C04", "skip-defaults-area-not-cleared", "src/registers/core.c", "        if (t->area[i].mem != NULL) {\n            memset(t->area[i].mem, 0, t->area[i].size * sizeof(RegisterAtom));", "        if (t->area[i].mem != NULL\n            && BIT_ISSET(t->area[i].flags, REG_AF_SKIP_DEFAULTS) == false) {\n            memset(t->area[i].mem, 0, t->area[i].size * sizeof(RegisterAtom));"),
  ("C04", "entry-at-area-end-accepted", "src/registers/core.c", "    return (entry_end <= area_end);", "    return (entry_end <= area_end + 1u);"),
  ("C12", "esc-followed-by-end-does-not-resync", "src/rfc1055.c", "                    ctx->state = (data == RAW_EOF)\n                        ? RFC1055_NORMAL\n                        : RFC1055_SEARCH_FOR_END;", "                    ctx->state = RFC1055_SEARCH_FOR_END;"),
  ("C12", "sof-empty-frame-keeps-normal-state", "src/rfc1055.c", "                if (BIT_ISSET(ctx->flags, RFC1055_WITH_SOF)) {\n                    ctx->state = RFC1055_SEARCH_FOR_START;\n                }\n                return 1;", "                if (BIT_ISSET(ctx->flags, RFC1055_WITH_SOF) && data != 0u) {\n                    ctx->state = RFC1055_SEARCH_FOR_START;\n                }\n                return 1;"),
